@@ -23,6 +23,7 @@ def parseWho (s : String) : Option Who :=
   match s.toList with
   | 't' :: rest => (String.ofList rest).toNat?.map Who.tick
   | 'b' :: rest => (String.ofList rest).toNat?.map Who.brk
+  | 'x' :: rest => (String.ofList rest).toNat?.map Who.cancel
   | _ =>
     match s.splitOn ":" with
     | [a] => a.toNat?.map (fun i => Who.task i 0)
@@ -60,6 +61,7 @@ def labelAfter (s : St) : Who → String
     | none => "-"
   | .tick _ => "t"
   | .brk _ => "b"
+  | .cancel _ => "x"
 
 def runLabels (s : St) : List Who → List String → St × List String
   | [], acc => (s, acc.reverse)
@@ -102,11 +104,15 @@ def showState (s : St) (nw : Nat) : String :=
 `mx <maxKeys> <maxConns> <maxLife> <stale> <ops>`; ops: `o<k>` a delivery to domain `k` starts and sends its message
 (`pool.Get`, then MAIL/RCPT/DATA stamp the connection), `c` the oldest open delivery ends (`remoteDelivery.Close`:
 `pool.Return`), `t<d>` the clock moves, `b<c>` the server drops connection `c` (ignored while a delivery holds it),
-`k` `pool.CleanUp`, `s` `pool.Close`.  One model worker per delivery (`get k, use, ret`) plus one for the sweeps and
+`k` `pool.CleanUp`, `s` `pool.Close`; `x<k>` a delivery to domain `k` whose context is cancelled (or times out) while
+`pool.Get` waits for the answer of the next hop to the RSET by which it probes a pooled connection — the first time
+the worker is parked in `Usable()` with a connection the server has not dropped, the schedule takes `cancel`; when no
+such connection is probed the context stays live and the delivery is an ordinary one.  A delivery that fails (`E`:
+no pooled connection left and the dial under the dead context fails) holds nothing.  One model worker per delivery (`get k, use, ret`) plus one for the sweeps and
 the shutdown; every call runs to completion, and the `go conn.Close()` goroutines run right away. -/
 
 inductive MxOp
-  | open_ (k : Nat) | commit | tick (d : Nat) | brk (c : Nat) | sweep | shut
+  | open_ (k : Nat) | openx (k : Nat) | commit | tick (d : Nat) | brk (c : Nat) | sweep | shut
 
 def parseMxOp (s : String) : Option MxOp :=
   match s.toList with
@@ -114,6 +120,7 @@ def parseMxOp (s : String) : Option MxOp :=
   | ['k'] => some .sweep
   | ['s'] => some .shut
   | 'o' :: rest => (String.ofList rest).toNat?.map MxOp.open_
+  | 'x' :: rest => (String.ofList rest).toNat?.map MxOp.openx
   | 't' :: rest => (String.ofList rest).toNat?.map MxOp.tick
   | 'b' :: rest => (String.ofList rest).toNat?.map MxOp.brk
   | _ => none
@@ -129,6 +136,24 @@ def runCall (s : St) (i : Nat) : Nat → St
       | some t => if t.pc = .idle ∨ t.pc = .done then s' else runCall s' i fuel
       | none => s'
 
+/-- as `runCall`; the first time goroutine `i` is parked in `Usable()` with a connection that is not broken (the
+server holds its answer to the RSET) its context is cancelled -/
+def runCallCancel (s : St) (i : Nat) (fired : Bool) : Nat → St
+  | 0 => s
+  | fuel + 1 =>
+    let hold : Bool := match s.tasks[i]? with
+      | some t => match t.pc with
+        | .gUsable _ _ c => !fired && !s.broken c
+        | _ => false
+      | none => false
+    let s := if hold then next s (.cancel i) else s
+    match step s (.task i 0) with
+    | none => s
+    | some s' =>
+      match s'.tasks[i]? with
+      | some t => if t.pc = .idle ∨ t.pc = .done then s' else runCallCancel s' i (fired || hold) fuel
+      | none => s'
+
 /-- run the spawned `conn.Close()` goroutines (indexes ≥ `n0`) to their end -/
 def settle (s : St) (n0 : Nat) : St :=
   (List.range (s.tasks.length - n0)).foldl (fun s j => runCall s (n0 + j) 4) s
@@ -142,18 +167,22 @@ structure MxSt where
   openQ : List Nat := []
   out : List String := []
 
+def mxOpen (m : MxSt) (cancel : Bool) : MxSt :=
+  let j := m.nextD
+  let f0 := m.s.fresh
+  let s1 := if cancel then runCallCancel m.s j false 200 else runCall m.s j 200
+  let s2 := settle (runCall s1 j 200) m.n0
+  let tok := match s2.tasks[j]? with
+    | some t => match t.held with
+      | (c, _) :: _ => (if s2.fresh > f0 then "n" else "p") ++ toString c
+      | [] => "E"
+    | none => "E"
+  -- a failed delivery is aborted at once: it is not among the open ones
+  { m with s := s2, nextD := j + 1, openQ := if tok == "E" then m.openQ else m.openQ ++ [j], out := tok :: m.out }
+
 def mxStep (m : MxSt) : MxOp → MxSt
-  | .open_ _ =>
-    let j := m.nextD
-    let f0 := m.s.fresh
-    let s1 := runCall m.s j 200
-    let s2 := settle (runCall s1 j 200) m.n0
-    let tok := match s2.tasks[j]? with
-      | some t => match t.held with
-        | (c, _) :: _ => (if s2.fresh > f0 then "n" else "p") ++ toString c
-        | [] => "E"
-      | none => "E"
-    { m with s := s2, nextD := j + 1, openQ := m.openQ ++ [j], out := tok :: m.out }
+  | .open_ _ => mxOpen m false
+  | .openx _ => mxOpen m true
   | .commit =>
     match m.openQ with
     | [] => { m with out := "-" :: m.out }
@@ -168,6 +197,7 @@ def mxStep (m : MxSt) : MxOp → MxSt
 def mxProgs (ops : List MxOp) : List (List Op) :=
   let ds := ops.filterMap (fun o => match o with
     | .open_ k => some [Op.get k, Op.use, Op.ret]
+    | .openx k => some [Op.get k, Op.use, Op.ret]
     | _ => none)
   let admin := ops.filterMap (fun o => match o with
     | .sweep => some Op.cleanup
